@@ -30,6 +30,7 @@ for NAME in "$@"; do
     W=none; WO=none
     if [ -f "$D/demo_test.go" ]; then
       PKGDIR=$(grep -o 'internal/[a-z/]*\|cmd/[a-z/]*' "$D/demo_test.go" | grep -v '\.go' | head -1)
+      while [ -n "$PKGDIR" ] && [ ! -d "$WT/$PKGDIR" ] && [ "$PKGDIR" != "${PKGDIR%/*}" ]; do PKGDIR=${PKGDIR%/*}; done
       [ -d "$WT/$PKGDIR" ] && [ -n "$PKGDIR" ] || PKGDIR=$DIR
       PK=$(sed -n 's/^package \([a-z_]*\).*/\1/p' "$D/demo_test.go" | head -1)
       # choose the directory whose package name matches
